@@ -31,8 +31,13 @@ def gen_case(rng, hermitian):
     cplx = rng.random() < 0.7
     seed = rng.randrange(1 << 30)
     fully = sorted(rng.sample(range(nb), rng.randint(1, nb))) if (nb == 1 or rng.random() < 0.5) else []
+    chain = bool(fully) and rng.random() < 0.3
+    if chain:
+        # a non-transitive tolerance chain E, E+0.06, E+0.12 (atol = 0.1) inside a fully diagonalised block of 3 levels
+        # (plus 0-2 further, well separated levels in the same block)
+        sizes[fully[0]] = 3 + rng.randint(0, 2)
     return dict(sizes=sizes, nparam=nparam, fmt=fmt, cplx=cplx, seed=seed, fully=fully, hermitian=hermitian,
-                N=3, cplx_energy=(not hermitian and rng.random() < 0.6))
+                N=3, cplx_energy=(not hermitian and not chain and rng.random() < 0.6), chain=chain, atol=(0.1 if chain else None))
 
 
 def build(case):
@@ -46,7 +51,9 @@ def build(case):
     for b, s in enumerate(sizes):
         base = 3.0 * b + rs.uniform(0, 0.5) + (1j * rs.uniform(-1, 1) if case["cplx_energy"] else 0)
         for a in range(s):
-            if b in case["fully"]:
+            if case.get("chain") and b == case["fully"][0]:
+                lvl = base + (0.06 * a if a < 3 else 0.12 + 0.45 * (a - 2))
+            elif b in case["fully"]:
                 # distinct levels inside a fully diagonalised block (gaps >= 0.4), sometimes a degenerate pair
                 lvl = base + 0.5 * (a if not (a == 1 and rs.uniform() < 0.3) else 0)
             else:
@@ -97,7 +104,8 @@ def check_case(case, tol=2e-8):
     with warnings.catch_warnings():
         warnings.simplefilter("ignore")
         try:
-            Ht, U, Ui = block_diagonalize(dict(H), subspace_indices=sub, fully_diagonalize=tuple(case["fully"]), hermitian=case["hermitian"])
+            kw = dict(atol=case["atol"]) if case.get("atol") else {}
+            Ht, U, Ui = block_diagonalize(dict(H), subspace_indices=sub, fully_diagonalize=tuple(case["fully"]), hermitian=case["hermitian"], **kw)
             offs = np.cumsum([0] + sizes)
             S = {}
             for name, X in (("Ht", Ht), ("U", U), ("Ui", Ui)):
@@ -115,7 +123,13 @@ def check_case(case, tol=2e-8):
     for i in range(nb):
         sl = slice(offs[i], offs[i + 1])
         if i in case["fully"] or nb == 1:
-            K[sl, sl] = np.abs(E[sl][:, None] - E[sl][None, :]) < 1e-9
+            etol = case.get("atol") or 1e-9
+            close = np.abs(E[sl][:, None] - E[sl][None, :]) < etol
+            # kept elements = connected components of the tolerance relation
+            reach = close.copy()
+            for _ in range(len(reach)):
+                reach = (reach.astype(int) @ close.astype(int)) > 0
+            K[sl, sl] = reach
         else:
             K[sl, sl] = True
 
